@@ -582,7 +582,16 @@ struct RefsWorld : World {
 					case 0: { what = "add_layout"; give(P(LY[i]->id()), [&] { int r; { Sut su(fn); r = G->add_layout(LY[i], (x >> 11) & 1); fired = g.fired; } return r >= 0; }); break; }
 					case 1: { what = "remove_layout"; if (!is_alive(P(LY[i]->id()))) break; Sut su; G->remove_layout(LY[i]); break; }
 					case 2: { what = "layout append graph"; if (!is_alive(P(LY[i]->id()))) break;
-						give(P(GR[j]->id()), [&] { identifier id; if (name) id.set_name(name); int r; { Sut su(fn); r = LY[i]->append(name ? &id : 0, GR[j]); fired = g.fired; } return r >= 0; }); break; }
+						give(P(GR[j]->id()), [&] { identifier id; if (name) id.set_name(name);
+							// (the name may also be the identifier of one of the layout's own entries: it lies inside the entry array, which the append may move)
+							const identifier *idp = name ? &id : 0; std::string want = name ? name : "";
+							if ((x & 0x80000) && LY[i]->items().size()) { const item<metatype> &own = LY[i]->items().begin()[(x >> 21) % (uint32_t) LY[i]->items().size()]; const char *on; { Sut su; on = own.name(); } if (on) { idp = &own; want = on; st.hit("probe:group_append_named_after_own_entry"); } }
+							long n0 = (long) LY[i]->items().size();
+							int r; { Sut su(fn); r = LY[i]->append(idp, GR[j]); fired = g.fired; }
+							// an entry that is reported as added carries the name it was given
+							if (r >= 0 && (long) LY[i]->items().size() == n0 + 1) { const char *got; { Sut su; got = LY[i]->items().begin()[n0].name(); }
+								if (std::string(got ? got : "") != want) fail("wrong-name", "layout entry appended with a name of %zu characters%s reads a name of %zu characters", want.size(), fired ? " (an allocation failed on the way)" : "", got ? strlen(got) : (size_t) 0); }
+							return r >= 0; }); break; }
 					case 3: { what = "graph append world/axis"; if (!is_alive(P(GR[j]->id()))) break;
 						metatype *m = (x & 0x40000) ? static_cast<metatype *>(WD[w]) : static_cast<metatype *>(AX[w]);
 						give(P(m), [&] { identifier id; if (name) id.set_name(name); int r; { Sut su(fn); r = GR[j]->append(name ? &id : 0, m); fired = g.fired; } return r >= 0; }); break; }
